@@ -34,10 +34,10 @@ Definition sink_state := (option bytes * bool * list (Z * bytes))%type.
 Inductive case :=
 | CLocal (recheck reg0 : bool) (progs : list (list op)) (sched : list Z)
          (labels : list label) (calls : list call) (outs : list Z) (creates : Z) (locked reg : bool)
-| CCluster (progs : list (Z * list op)) (sched : list Z)
+| CCluster (stale : option Z) (progs : list (Z * list op)) (sched : list Z)
            (labels : list label) (calls : list call) (outs : list Z) (uids : list Z) (deleted : bool)
 | CLocalP (reg0 : bool) (progs : list (list op)) (steps calls outs : list Z) (creates : Z) (locked reg : bool)
-| CClusterP (progs : list (Z * list op)) (steps calls outs uids : list Z) (deleted : bool)
+| CClusterP (stale : option Z) (progs : list (Z * list op)) (steps calls outs uids : list Z) (deleted : bool)
 | CDisabled (cluster reg0 : bool) (progs : list (Z * list op)) (sched : list Z) (t : Z)
 | CSink (empty_fails : bool) (pre : option bytes) (ws : list (Z * bytes)) (ps : list Z) (keep : bool) (expect : res sink_state)
 | CLimits (l : limits) (expect : Z * Z * Z * Z)
@@ -85,10 +85,10 @@ Fixpoint check_fuel (fuel : nat) (c : case) : bool :=
                                     (map (fun z => label_of_code (z mod 16)) steps)
                                     (map call_of_code calls) outs creates locked reg)
       end
-  | CClusterP progs steps calls outs uids deleted =>
+  | CClusterP stale progs steps calls outs uids deleted =>
       match fuel with
       | O => false
-      | S f => check_fuel f (CCluster progs (map (fun z => z / 16) steps)
+      | S f => check_fuel f (CCluster stale progs (map (fun z => z / 16) steps)
                                       (map (fun z => label_of_code (z mod 16)) steps)
                                       (map call_of_code calls) outs uids deleted)
       end
@@ -103,8 +103,9 @@ Fixpoint check_fuel (fuel : nat) (c : case) : bool :=
           Bool.eqb (match l_lock (fst s) with Some _ => true | None => false end) locked &&
           Bool.eqb (l_reg (fst s)) reg
       end
-  | CCluster progs sched labels calls outs uids deleted =>
-      match c_run std_id (c_init (wprogs progs)) (nats sched) with
+  | CCluster stale progs sched labels calls outs uids deleted =>
+      (* [stale]: content of the shared variable left by an earlier upload, before prep_client *)
+      match c_run std_id (c_init_after stale (wprogs progs)) (nats sched) with
       | None => false
       | Some (lbs, s) =>
           list_eqb label_eqb lbs labels &&
